@@ -241,6 +241,109 @@ def scenario(args):
         cl.shutdown()
 
 
+import re
+LEADER_RE = re.compile(r"(\d+) became leader at term (\d+)")
+
+
+def leader_of(cl):
+    best = (0, None)
+    for nd in cl.nodes:
+        for m in LEADER_RE.finditer(cl.tail(nd, 400000)):
+            if int(m.group(2)) >= best[0]:
+                best = (int(m.group(2)), int(m.group(1)))
+    return None if best[1] is None else cl.nodes[best[1] - 1]
+
+
+def failover(args):
+    """The quorum for a burst of writes is {leader L, follower F} (follower P is down); F dies at a crash gate inside
+    its Ready loop (verif hook VERIF_CRASH_AT=<stage>#<n>, after stalling there for 80 ms) while acknowledgements are in
+    flight; then L is lost for good, F and P are restarted: {F, P} are a quorum and elect a leader. Every acknowledged
+    write was on the disks of L and F when it was acknowledged, so it must still be there: the history, with a read-back of every key through F and P, must be
+    linearizable. (Raft's 'persist before you answer' is what this scenario leans on.)"""
+    name, gate, occ, idx = args
+    rnd = random.Random(seed * 1000 + idx)
+    cl = cluster.Cluster(3, trace=False).start_all()
+    rec = Recorder(idx)
+    stats = {"answered": 0, "unanswered": 0, "faults": []}
+    result = {"name": name, "stats": stats, "path": None, "violations": [], "inconclusive": None}
+    try:
+        if cl.wait_serving(timeout=60) is None:
+            result["inconclusive"] = "cluster did not start serving"
+            return result
+        L = leader_of(cl)
+        if L is None:
+            result["inconclusive"] = "no leader line in the logs"
+            return result
+        F, P = [nd for nd in cl.nodes if nd is not L]
+        cl.kill(F)
+        cl.start_node(F, crash_at="%s#%d" % (gate, occ), crash_delay_ms=80, crash_arm="ready:entries")   # only passes that carry entries count; the loop stalls 80 ms at the gate, then the node dies
+        stats["faults"].append("restart follower %d with crash gate %s#%d" % (F.id, gate, occ))
+        if cl.wait_serving(nodes=[F], timeout=40) is None and F.alive():
+            result["inconclusive"] = "follower did not come back"
+            return result
+        if leader_of(cl) is not L:
+            result["inconclusive"] = "leader changed during preparation"
+            return result
+        cl.kill(P)                      # P is down during the burst (a paused P would still receive the entries from its socket buffers later)
+        stats["faults"].append("kill follower %d" % P.id)
+        stop = threading.Event()
+
+        def writer(c):
+            try:
+                conn = L.client(timeout=3.0)
+            except Exception:
+                return
+            for i in range(1500):
+                if stop.is_set():
+                    break
+                op = rec.new_op(["SET", "k%d" % rnd.randrange(16), "c%dv%d" % (c, i)])
+                try:
+                    rec.done(op, conv(conn.cmd(*op["argv"], timeout=3.0)))
+                    stats["answered"] += 1
+                except Exception:
+                    stats["unanswered"] += 1
+                    break
+        threads = [threading.Thread(target=writer, args=(c,)) for c in range(4)]
+        for t in threads:
+            t.start()
+        t0 = time.time()
+        while F.alive() and time.time() - t0 < 20 and any(t.is_alive() for t in threads):
+            time.sleep(0.01)
+        died_at_gate = not F.alive()
+        cl.stop_cont(L, True)           # the leader may not re-send what it has: freeze it, then lose it
+        stop.set()
+        stats["faults"].append("follower %d %s; SIGSTOP + kill leader %d" % (F.id, "died at the gate" if died_at_gate else "never reached the gate", L.id))
+        if F.alive():
+            cl.kill(F)
+        cl.start_node(F)
+        cl.kill(L)
+        cl.start_node(P)
+        for t in threads:
+            t.join(timeout=30)
+        if not died_at_gate:
+            result["inconclusive"] = "gate %s#%d not reached under load" % (gate, occ)
+        if cl.wait_serving(nodes=[F, P], timeout=60) is None:
+            result["inconclusive"] = "the surviving quorum did not elect a leader in 60 s"
+            return result
+        path = os.path.join(d, "hist-%d.ndjson" % idx)
+        for nd in (F, P):
+            c = nd.client(timeout=6.0)
+            for k in range(16):
+                op = rec.new_op(["GET", "k%d" % k])
+                try:
+                    rec.done(op, conv(c.cmd(*op["argv"], timeout=6.0)))
+                except Exception:
+                    result["inconclusive"] = "read-back through node %d got no reply" % nd.id
+                    return result
+            c.close()
+        rec.write(path)
+        result["path"] = path
+        result["inconclusive"] = None if died_at_gate else result["inconclusive"]
+        return result
+    finally:
+        cl.shutdown()
+
+
 if tier == "quick":
     plan = [("steady", 3, [], 6, 20), ("follower-or-leader-kill", 3, ["kill-restart"], 5, 25), ("pause", 3, ["pause"], 5, 20),
             ("pinned-one-client-per-node", 3, [], 3, 40), ("membership-add", 3, ["add-node"], 5, 40), ("membership-remove", 3, ["remove-node"], 5, 40)]
@@ -251,8 +354,11 @@ else:
            [("two-kills", 3, ["kill-restart", "kill-restart"], 5, 35)] * 3 + [("pause", 3, ["pause"], 5, 25)] * 2 + \
            [("kill-5", 5, ["kill-restart", "pause", "kill-restart"], 6, 30)] * 2
 jobs = [(name, n, faults, nc, nops, i + 1) for i, (name, n, faults, nc, nops) in enumerate(plan)]
+gates = [("send", 120), ("walsave", 120)] if tier == "quick" else [(g, o) for g in ("ready", "walsave", "append", "send", "publish", "advance") for o in (60, 200)]
+fjobs = [("failover-after-follower-crash-at-%s" % g, g, o, 100 + i) for i, (g, o) in enumerate(gates)]
 with concurrent.futures.ThreadPoolExecutor(max_workers=4) as ex:
-    results = list(ex.map(scenario, jobs))
+    fut = [ex.submit(scenario, j) for j in jobs] + [ex.submit(failover, j) for j in fjobs]
+    results = [f.result() for f in fut]
 hist_paths = []
 skipped = 0
 for r in results:
